@@ -8,7 +8,7 @@ Open Scope nat_scope.
 (* sources: 0 param, 1 query, 2 form, 3 header *)
 Definition source := nat.
 
-Inductive skind := SString | SInt.
+Inductive skind := SString | SInt | SUint8 | SUint16 | SInt8.
 Inductive ty :=
 | TScalar (k : skind)
 | TSlice (k : skind)
@@ -32,7 +32,15 @@ Definition path := list nat.
 Inductive result := Writes (ws : list (path * list str)) | Error.
 
 Definition conv_ok (k : skind) (v : str) : bool :=
-  match k with SString => true | SInt => match parse_int 64 (match v with [] => lit "0" | _ => v end) with Some _ => true | None => false end end.
+  let v' := match v with [] => lit "0" | _ => v end in
+  let some (o : option Z) := match o with Some _ => true | None => false end in
+  match k with
+  | SString => true
+  | SInt => some (parse_int 64 v')
+  | SUint8 => some (parse_uint 8 v')
+  | SUint16 => some (parse_uint 16 v')
+  | SInt8 => some (parse_int 8 v')
+  end.
 
 Definition cat (a b : result) : result :=
   match a, b with Writes x, Writes y => Writes (x ++ y) | _, _ => Error end.
